@@ -145,6 +145,7 @@ type Sim struct {
 	mu       quietMutex
 	vmu      quietMutex
 	uuidSeq  atomic.Int64
+	mapCalls atomic.Int64
 	rootGoid int64
 	tasks    map[int64]*Task
 	all      []*Task
@@ -1433,6 +1434,10 @@ func MapKeys[M ~map[K]V, K comparable, V any](m M) []K {
 	}
 	if s := cur.Load(); s != nil {
 		if ms := uint64(s.Case.Cfg("map_seed", 0)); ms != 0 {
+			if s.Case.Cfg("map_reshuffle", 0) == 1 {
+				// a fresh order on every iteration (as Go's runtime gives), still a function of the schedule
+				ms += uint64(s.mapCalls.Add(1)) * 0x9e3779b97f4a7c15
+			}
 			r := rand.New(rand.NewPCG(ms, uint64(len(out))))
 			r.Shuffle(len(out), func(i, j int) { out[i], out[j] = out[j], out[i] })
 		}
